@@ -201,11 +201,13 @@ Print Assumptions C07_rows_in_order.
    for text cells: text_cells_ok).  EVERY path of the repaired _calculate_column_widths: ratio
    columns, collapse, re-measure, table min_width; the solver does not fail (no AssertionError /
    StopIteration / fuel), every column keeps >= 1 cell, borders + widths = the width asked for, and
-   every printed body line is exactly that wide.  Rests on C01's collapse_keeps_pos. *)
-Theorem C07_table_expand_exact : forall o b cols avail rows,
+   every printed body line is exactly that wide.  Rests on C01's collapse_keeps_pos.  `fm` = both
+   variants of the flexible minimum of ratio columns (as found / fixes/C07_ratio_column_minimum.diff);
+   table_widths_x false = table_widths (TableP2.calc_widths_x_false). *)
+Theorem C07_table_expand_exact : forall fm o b cols avail rows,
   box_agrees o b -> expand_dom_b o cols avail = true ->
   Forall (fun c => Forall cell_fun_ok (c_cells c)) cols ->
-  exists ws, table_widths false false o cols avail = Ok ws /\ length ws = length cols /\
+  exists ws, table_widths_x fm false false o cols avail = Ok ws /\ length ws = length cols /\
     Forall (fun w => 1 <= w) ws /\
     extra_width o (length cols) + sumZ ws = target_width o avail /\
     (Forall (fun r => length (r_cells r) = length ws) rows ->
@@ -230,10 +232,18 @@ Example C07_table_expand_exact_minw_needed :
   calc_widths false false minw_opts minw_cols 24 = Ok [10; 8; 8] /\ sumZ [10; 8; 8] <> 24.
 Proof. exact table_expand_exact_minw_needed. Qed.
 
-(* observation (finding, no fix proposed): a ratio column can be squeezed to one cell at any width *)
-Example C07_ratio_column_one_cell :
-  table_widths false false ratio1_opts ratio1_cols 20 = Ok [1; 19] /\ expand_dom_b ratio1_opts ratio1_cols 20 = true.
-Proof. exact ratio_column_one_cell. Qed.
+(* KNOWN FINDING C07-ratio-column-one-cell: as found, a ratio column is only guaranteed
+   (width or 1) + padding cells; in the expand domain, far above the structural minimum, it can get
+   fewer cells than the measured minimum of its cell (a double-width character then disappears);
+   with the measured minimum as flexible minimum (the proposed fix) it does not *)
+Theorem C07_ratio_column_minimum_asis_refuted :
+  exists o cols avail ws w0 rest,
+    expand_dom_b o cols avail = true /\
+    table_widths_x false false false o cols avail = Ok ws /\ ws = w0 :: rest /\
+    (exists c cs f fs, cols = c :: cs /\ c_cells c = f :: fs /\ w0 < fst (f avail)) /\
+    (exists ws', table_widths_x true false false o cols avail = Ok ws' /\ ws' = [2; 18]).
+Proof. exact ratio_column_minimum_asis_refuted. Qed.
+Print Assumptions C07_ratio_column_minimum_asis_refuted.
 
 (* D21: as found, table_width is stale after the re-measure *)
 Theorem C07_table_expand_exact_stale_refuted :
